@@ -4,6 +4,7 @@ CONSTANTS
   Rows <- RowsA
   Atoms <- AtomsA
   MaxLevel = 2
+  WithPairs = FALSE
   ReasonBug = FALSE
 VIEW GView
 ACTION_CONSTRAINT Emit
